@@ -52,7 +52,7 @@ type FailCase struct {
 	StaleCache bool `json:"stale_cache,omitempty"`
 }
 
-var failNames = []string{"alpha", "Alpha", "bravo", "ALPHA"} // task names are case-sensitive: three different tasks share their letters
+var failNames = []string{"alpha", "Alpha", "alpha_all", "ALPHA"} // task names are case-sensitive: three tasks share their letters, and one name is the beginning of another
 var failStatuses = []int{1, 2, 3, 42, 126, 127, 255}
 var failFlagSets = [][]string{nil, {"--quiet"}, {"--json"}, {"--force"}, {"--quiet", "--force"}, {"--json", "--force"}, {"--quiet", "--json"}, {"--json", "--quiet", "--force"}}
 
